@@ -84,6 +84,39 @@ func compilePolicyAfter(p *spec.Policy, prev string) (c *compiled, err error, pa
 		old.Assemble()
 		old.DefaultAction, old.Syscalls = sp.DefaultAction, sp.Syscalls
 		sp = old
+	case prev == "unset":
+		// the architecture is left to the library, as users of the public API do (only possible for this machine's own)
+		if p.Arch == hostArchName() {
+			q := *p
+			q.Arch = ""
+			sp = q.ToSeccomp()
+		}
+	case prev == "shared-array":
+		// all Names of all groups live in one array, in another order than the groups, every window with capacity up to
+		// the end of the array: what one group appends "behind its end" lands in another group's names
+		total := 0
+		for _, g := range sp.Syscalls {
+			total += len(g.Names)
+		}
+		arr := make([]string, 0, total+4)
+		order := make([]int, len(sp.Syscalls))
+		for i := range order {
+			order[i] = i
+		}
+		r := gen.NewRng(uint64(total)*977 + uint64(len(order)))
+		for i := len(order) - 1; i > 0; i-- {
+			j := r.Intn(i + 1)
+			order[i], order[j] = order[j], order[i]
+		}
+		for _, gi := range order {
+			g := &sp.Syscalls[gi]
+			if g.Names == nil {
+				continue
+			}
+			off := len(arr)
+			arr = append(arr, g.Names...)
+			g.Names = arr[off:len(arr)]
+		}
 	case prev == "copy":
 		// the architecture is described by an equal private copy of the package's Info value
 		info := *spec.ArchInfo(p.Arch)
